@@ -164,11 +164,85 @@ theorem lx_comment (body X : Bytes) (hb : ∀ ch ∈ body, ch ≠ 10 ∧ ch ≠ 
     simp only [Nat.zero_add] at this
     simp [next, this]
 
-/-- gaps: white space and `#` comments ending in a line feed -/
+/-- `commentEnd mode c`: read in mode `mode` of `skipComment` (inside a comment / just after a
+    backslash / after backslash CR), `c` is exactly the rest of the comment up to and including the
+    line end (LF or CR) that terminates it — gojq's rules: inside a comment a backslash consumes a
+    following backslash, LF, CR or CR LF (decidable) -/
+def commentEnd : Mode → Bytes → Bool
+  | _, [] => false
+  | mode, c :: r =>
+    if (mode == .afterBs && (c == 92 || c == 10)) || (mode == .afterBsCR && c == 10) then commentEnd .comment r
+    else if mode == .afterBs && c == 13 then commentEnd .afterBsCR r
+    else if c == 92 then commentEnd .afterBs r
+    else if c == 10 || c == 13 then r.isEmpty
+    else commentEnd .comment r
+
+theorem nextAux_commentEnd : ∀ (body : Bytes) (mode : Mode), mode ≠ .normal → commentEnd mode body = true →
+    ∀ (X : Bytes) (n : Nat), nextAux mode (body ++ X) n =
+      if X.isEmpty then .eof (n + body.length) else nextAux .normal X (n + body.length) := by
+  intro body
+  induction body with
+  | nil => intro mode _ h; simp [commentEnd] at h
+  | cons c r ih =>
+    intro mode hm h X n
+    have hm' : (mode == Mode.normal) = false := by cases mode <;> simp_all
+    rw [List.cons_append, nextAux]
+    · simp only [hm', Bool.false_eq_true, if_false]
+      unfold commentEnd at h
+      have e1 : n + 1 + r.length = n + (r.length + 1) := by omega
+      split at h
+      · next hc => simp only [hc, if_true, List.length_cons]; rw [ih .comment (by simp) h X (n + 1), e1]
+      · next hc =>
+        simp only [hc, Bool.false_eq_true, if_false] at h ⊢
+        split at h
+        · next hc2 => simp only [hc2, if_true, List.length_cons]; rw [ih .afterBsCR (by simp) h X (n + 1), e1]
+        · next hc2 =>
+          simp only [hc2, Bool.false_eq_true, if_false]
+          split at h
+          · next hc3 => simp only [hc3, if_true, List.length_cons]; rw [ih .afterBs (by simp) h X (n + 1), e1]
+          · next hc3 =>
+            simp only [hc3, Bool.false_eq_true, if_false]
+            split at h
+            · next hc4 =>
+              have hr : r = [] := by simpa using h
+              subst hr
+              simp only [hc4, if_true, List.nil_append, List.length_cons, List.length_nil]
+            · next hc4 =>
+              simp only [hc4, Bool.false_eq_true, if_false, List.length_cons]
+              rw [ih .comment (by simp) h X (n + 1), e1]
+
+/-- ANY `#` COMMENT UP TO THE LINE END THAT TERMINATES IT IS A GAP, backslash continuations and CR
+    included -/
+theorem lx_commentEnd (body X : Bytes) (hb : commentEnd .comment body = true) :
+    lx (35 :: (body ++ X)) false = lx X false := by
+  have hn : next (35 :: (body ++ X)) =
+      if X.isEmpty then .eof (body.length + 1) else nextAux .normal X (body.length + 1) := by
+    simp only [next]
+    rw [nextAux]
+    simp only [beq_self_eq_true, if_true, nextAux_commentEnd body .comment (by simp) hb]
+    simp [Nat.add_comm 1]
+  cases X with
+  | nil =>
+    simp only [List.isEmpty_nil, if_true] at hn
+    simp only [List.append_nil] at hn ⊢
+    simp [lx, lex, hn, commit, List.drop_eq_nil_iff]
+  | cons x X' =>
+    simp only [List.isEmpty_cons, Bool.false_eq_true, if_false] at hn
+    have e : 35 :: (body ++ x :: X') = (35 :: body) ++ (x :: X') := by simp
+    rw [e]
+    refine lx_skip _ _ (by simp) (by simp) ?_
+    rw [← e, hn]
+    have := nextAux_shift (body.length + 1) (x :: X') .normal 0
+    simp only [Nat.zero_add] at this
+    simp [next, this]
+
+/-- gaps: white space and `#` comments up to their line end (`comment`: the simple case, a body
+    without backslash and CR up to a line feed; `commentG`: gojq's full rule, `commentEnd`) -/
 inductive IsGap : Bytes → Prop where
   | nil : IsGap []
   | white (w : UInt8) (g : Bytes) : isWhite w = true → IsGap g → IsGap (w :: g)
   | comment (body g : Bytes) : (∀ ch ∈ body, ch ≠ 10 ∧ ch ≠ 13 ∧ ch ≠ 92) → IsGap g → IsGap (35 :: (body ++ 10 :: g))
+  | commentG (body g : Bytes) : commentEnd .comment body = true → IsGap g → IsGap (35 :: (body ++ g))
 
 /-- THE GAP BEFORE A TOKEN IS IRRELEVANT, comments included -/
 theorem lx_gap (g X : Bytes) (hg : IsGap g) : lx (g ++ X) false = lx X false := by
@@ -178,6 +252,9 @@ theorem lx_gap (g X : Bytes) (hg : IsGap g) : lx (g ++ X) false = lx X false := 
   | comment body g hb _ ih =>
     have e : 35 :: (body ++ 10 :: g) ++ X = 35 :: (body ++ 10 :: (g ++ X)) := by simp
     rw [e, lx_comment body _ hb, ih]
+  | commentG body g hb _ ih =>
+    have e : 35 :: (body ++ g) ++ X = 35 :: (body ++ (g ++ X)) := by simp
+    rw [e, lx_commentEnd body _ hb, ih]
 
 /-- the adjacency condition with comments allowed in the gaps -/
 def GapsOK (tw : Bytes) : Bool → List Nat → List (Bytes × Tok) → Prop
